@@ -252,6 +252,24 @@ def check_p2h(idx, temps):
     if not (np.all(np.isfinite(z)) and np.all(np.diff(z) > 0)):
         return ("pressure2height/not-strictly-increasing", "increasing", z,
                 "")
+    # the same column stored top-down (pressure increasing along the array):
+    # starts at 0 at the top, heights decrease with increasing pressure, and
+    # every layer is as thick as in the bottom-up call (the hydrostatic
+    # integral does not depend on the storage order)
+    zt = ex.call(atm().pressure2height, p[::-1].copy(),
+                 None if t is None else t[::-1].copy())
+    if np.shape(zt) != (len(idx),):
+        return ("pressure2height/shape", (len(idx),), np.shape(zt),
+                "top-down")
+    if zt[0] != 0:
+        return ("pressure2height/does-not-start-at-0", 0.0, zt, "top-down")
+    if not (np.all(np.isfinite(zt)) and np.all(np.diff(zt) < 0)):
+        return ("pressure2height/top-down-not-decreasing", "decreasing", zt,
+                "height must increase with decreasing pressure")
+    want = z[::-1] - z[-1]
+    if not np.all(np.abs(zt - want) <= 1e-9 * max(abs(z[-1]), 1.0)):
+        return ("pressure2height/top-down-layers-differ", want, zt,
+                "layer thicknesses must not depend on the storage order")
     return None
 
 
@@ -336,6 +354,22 @@ def check_isothermal(t0, kind):
             return ("pressure2height/not-strictly-increasing", "increasing",
                     "%d levels" % n, "")
         errors.append(float(np.max(np.abs(z - ref)) / ref[-1]))
+        if n <= LEVELS[-1]:
+            # stored top-down: z = (R T / g) ln(p_top / p) <= 0
+            zt = ex.call(atm().pressure2height, p[::-1].copy(),
+                         np.full(n, t0))
+            reft = LD(RD) * LD(t0) / LD(G) * np.log(
+                LD(p[-1]) / p[::-1].astype(LD))
+            if np.shape(zt) != (n,) or zt[0] != 0 or \
+                    not np.all(np.diff(zt) < 0):
+                return ("pressure2height/top-down-not-decreasing",
+                        "decreasing from 0", "%d levels" % n, "")
+            if n == LEVELS[-1] and float(np.max(np.abs(zt - reft))
+                                         / abs(reft[-1])) >= CONVERGED:
+                return ("pressure2height/isothermal-not-converging",
+                        "< %g at %d levels (top-down)" % (CONVERGED, n),
+                        float(np.max(np.abs(zt - reft)) / abs(reft[-1])),
+                        "")
     if not (decreasing(errors) and errors[len(LEVELS) - 1] < CONVERGED):
         return ("pressure2height/isothermal-not-converging",
                 "decreasing, < %g at %d levels" % (CONVERGED, LEVELS[-1]),
